@@ -95,6 +95,11 @@ def run(ctx):
     # queue after the drain is exactly D2/D3 (reported under C15).
     ctx.tlc(S, "MC_BSP", "MC_BSP_live.cfg", defines=mc_defs(2, 1, 3, 1, False, 1, 1), name="live-p2x1-q3", timeout=1200)
 
+    # growth: the simple span processor obeys the same contract (SSP.tla, safety + liveness)
+    ssp = {"PRODUCERS": tla_set(["p1", "p2", "p3"] if thorough else ["p1", "p2"]), "STOPPERS": tla_set(["s1", "s2"]),
+           "SPANSPER": 2}
+    ctx.tlc(S, "MC_SSP", "MC_SSP.cfg", defines=ssp, name="mc-ssp", timeout=1200)
+
     # ------------------------------------------------------------ spec -> code: behaviours as gate scripts
     scenarios = []
     sims = [(2, 2, 2, 2, False, 1, 1), (2, 1, 1, 1, False, 1, 2), (2, 2, 1, 1, True, 1, 1), (3, 2, 2, 1, False, 2, 1)]
